@@ -144,7 +144,7 @@ def c05_runs(tier):
     q = tier == 'quick'
     two = ['-DIVYKIS_VERIF_TIMER_SPLIT_BITS=2']
     r = [timers_run('hist.sec', covers=['C05.history-fired-in-order', 'C05.history-unregister'], mode=0,
-                    L=5 if q else 7, sym=3),
+                    L=5 if q else 6, sym=3),
          timers_run('hist.pair', covers=['C05.history-fired-in-order'], mode=0, L=4 if q else 5, sym=1)]
     for N in ([0, 1, 2, 3, 5, 8, 13] if q else list(range(0, 32))):
         r.append(timers_run('step.N%d' % N, covers=['C05.step-register'], mode=1, N=N, sym=3))
